@@ -52,13 +52,35 @@ Theorem C07_spec_ignores_evictions :
 Proof. exact spec_evict. Qed.
 Print Assumptions C07_spec_ignores_evictions.
 
-(* an in-memory store that would have to evict refuses the addition and keeps everything *)
+(* an in-memory store that would have to evict refuses the addition and keeps everything (trajectories are
+   charged their own size [t_size]; the store holds [h_used] of its capacity) *)
 Theorem C07_inmemory_refuses_when_full :
   forall w h cap t, Inv w -> w_h w = Some h -> h_src h = SrcMem cap ->
-    cap <= length (h_mem h) -> acceptable (model_def (w_fs w) h) t = true ->
+    t_size t <= cap -> cap < h_used h + t_size t -> acceptable (model_def (w_fs w) h) t = true ->
     step fixed_cfg w (Add t) = (w, OErr EFull).
 Proof. exact inmemory_refuses_when_full. Qed.
 Print Assumptions C07_inmemory_refuses_when_full.
+
+(* ANY refused addition — eviction refusal in memory, a value larger than the whole cache ("value too large",
+   file-backed or in memory), an invalid trajectory, a read-only store — leaves the whole machine, the
+   next-index counter included, exactly as it was; with C07_store_refines_list: the next successful addition
+   gets the next index and the length stays the number of successful additions *)
+Theorem C07_refused_add_is_noop :
+  forall w t w' e, step fixed_cfg w (Add t) = (w', OErr e) -> w' = w.
+Proof. exact add_error_noop. Qed.
+Print Assumptions C07_refused_add_is_noop.
+
+(* non-vacuity with trajectories of different sizes: in memory (capacity 10) sizes 4, 4 fit, 4 is refused (full),
+   11 is refused (too large), 2 still fits and gets index 2; file-backed with a cache of 5: 2 accepted, 9 refused
+   (too large), 3 accepted with index 1; a reopen shows two items *)
+Example C07_refusals_with_sizes_nonvacuous :
+  hist_ok (abs empty_world) hist_sizes /\
+  snd (run fixed_cfg empty_world hist_sizes) =
+  [OUnit; OIdx 0; OIdx 1; OErr EFull; OErr ETooLarge; OIdx 2; OLen 3; OItem 4; OErr EIndex; OUnit;
+   OUnit; OIdx 0; OErr ETooLarge; OIdx 1; OLen 2; OUnit; OItem 5; OErr EIndex; OUnit;
+   OUnit; OLen 2; OItems [5; 7]%Z None; OUnit] /\
+  snd (spec_run (abs empty_world) hist_sizes) = snd (run fixed_cfg empty_world hist_sizes).
+Proof. exact hist_sizes_outputs. Qed.
 
 (* locating an index through the cumulative size table = indexing the concatenation (every seam) *)
 Theorem C07_size_table_lookup_is_concat_index :
